@@ -4,7 +4,7 @@
 cd "$(dirname "$0")/.."
 pid=$1
 n=$(echo $pid | tr 'C' 'c')
-git merge --no-edit -q w-$n || { echo "merge conflict"; git merge --abort; exit 1; }
+git merge --no-edit -q -X ours w-$n || { echo "merge conflict"; git merge --abort; exit 1; }
 /venv/bin/python tools/mkfindings.py
 ./check --setup >/dev/null 2>&1
 out=$(./check $pid --tier quick 2>&1); rc=$?
